@@ -27,7 +27,7 @@ def units(tier, seed):
         out += [{"stage": "tape", "p": p, "codes": c, "bound": None} for c in split_list(G.dag_codes(p), 5 if p == 3 else 1)]
     for part in split_list(G.dag_codes(4), 16):
         out.append({"stage": "grid", "p": 4, "codes": part})
-    step = 20 if tier == "quick" else 4
+    step = 8 if tier == "quick" else 2
     for part in split_list(G.dag_codes(4)[::step], 16 if tier == "quick" else 48):
         out.append({"stage": "tape", "p": 4, "codes": part, "bound": 2})
     if tier == "thorough":
@@ -198,7 +198,7 @@ def describe(tier, seed):
                 "the feasible maximum x seeds {default, 0, 1, VERIF_SEED}, each seeded call twice; under the owned RNG every shuffle / choice answer for every DAG and "
                 "count at p<=3 (complete), and all sequences with <=2 non-default answers for every %dth 4-node DAG with counts {1, max}; oracle: sub/supergraph with exactly "
                 "k edges fewer/more, acyclic, no 2-cycle, no self-loop (own detector), ValueError iff infeasible, input untouched, every k-subset removable. non-trivial: 0 < k <= max" % (
-                    20 if tier == "quick" else 4),
+                    8 if tier == "quick" else 2),
         "exhaustive": True,
         "bounds": {"p_exhaustive_real_rng": 4, "p_exhaustive_answers": 3, "p4_answer_deviation": 2},
         "assumptions": ["negative counts are outside the quantifier"],
